@@ -189,6 +189,7 @@ func (p *Program) verifyFunc(spec *FuncSpec) (u *Unit) {
 	c.spec = spec
 	c.fdecl = fd
 	c.content = true
+	c.ifaceNil = true
 	u.Ctx = c
 	u.File = c.pos(fd.Pos())
 	defer func() {
